@@ -6,7 +6,8 @@ verus! {
 global size_of usize == 8;
 
 // ================= map view: spec text copied from contracts/fi_map.rs (unit fi_map proves the contracts below) =================
-const DRIFT_LIMIT: usize = 1024;
+const DRIFT_LIMIT : usize = 1024 ;
+
 
 spec fn probe_at(p0: int, s: int, j: int, size: int) -> int { (p0 + j * s) % size }
 pub uninterp spec fn hash_spec<T>(item: T) -> u64;
@@ -117,14 +118,9 @@ proof fn lemma_hkeys<T>(ks: Seq<Option<T>>, st: Seq<u16>)
 }
 
 #[verifier::reject_recursive_types(T)]
-struct ReversePurgeItemHashMap<T> {
-    lg_length: u8,
-    load_threshold: usize,
-    keys: Vec<Option<T>>,
-    values: Vec<u64>,
-    states: Vec<u16>,
-    num_active: usize,
-}
+struct ReversePurgeItemHashMap < T > {
+lg_length : u8 , load_threshold : usize , keys : Vec < Option < T >> , values : Vec < u64 > , states : Vec < u16 > , num_active : usize , }
+
 
 impl<T> ReversePurgeItemHashMap<T> {
     spec fn shape(&self) -> bool { fshape(self.keys@, self.values@, self.states@, self.lg_length) }
@@ -197,40 +193,28 @@ impl<T: Eq + Hash> ReversePurgeItemHashMap<T> {
     { unimplemented!() }
 
     // ---- real getters ----
-    fn len(&self) -> (r: usize)
-      ensures r == self.keys@.len()
-    {
-        self.keys.len()
-    }
+    fn len ( & self ) -> ( r : usize ) ensures r == self . keys @ . len ( ) {
+self . keys . len ( ) }
 
-    fn lg_length(&self) -> (r: u8)
-      ensures r == self.lg_length
-    {
-        self.lg_length
-    }
 
-    fn capacity(&self) -> (r: usize)
-      ensures r == self.load_threshold
-    {
-        self.load_threshold
-    }
+    fn lg_length ( & self ) -> ( r : u8 ) ensures r == self . lg_length {
+self . lg_length }
 
-    fn num_active(&self) -> (r: usize)
-      ensures r == self.num_active
-    {
-        self.num_active
-    }
+
+    fn capacity ( & self ) -> ( r : usize ) ensures r == self . load_threshold {
+self . load_threshold }
+
+
+    fn num_active ( & self ) -> ( r : usize ) ensures r == self . num_active {
+self . num_active }
+
 }
 
 // ================= ReversePurgeItemIter (spec text copied from contracts/fi_map.rs) =================
 #[verifier::reject_recursive_types(T)]
-struct ReversePurgeItemIter<'a, T> {
-    map: &'a ReversePurgeItemHashMap<T>,
-    index: usize,
-    count: usize,
-    stride: usize,
-    mask: usize,
-}
+struct ReversePurgeItemIter < 'a , T > {
+map : & 'a ReversePurgeItemHashMap < T > , index : usize , count : usize , stride : usize , mask : usize , }
+
 
 impl<'a, T> ReversePurgeItemIter<'a, T> {
     spec fn n(&self) -> int { self.map.states@.len() as int }
@@ -278,22 +262,22 @@ spec fn total<T>(h: Seq<(T, u64)>) -> nat decreases h.len() {
 }
 spec fn cap_of(lg: u8) -> nat { pow2(lg as nat) * 3 / 4 }
 
-const LG_MIN_MAP_SIZE: u8 = 3;
-const SAMPLE_SIZE: usize = 1024;
-const LOAD_FACTOR_NUMERATOR: usize = 3;
-const LOAD_FACTOR_DENOMINATOR: usize = 4;
+const LG_MIN_MAP_SIZE : u8 = 3 ;
+
+const SAMPLE_SIZE : usize = 1024 ;
+
+const LOAD_FACTOR_NUMERATOR : usize = 3 ;
+
+const LOAD_FACTOR_DENOMINATOR : usize = 4 ;
+
 
 enum ErrorType {
-    NoFalseNegatives,
-    NoFalsePositives,
-}
+NoFalseNegatives , NoFalsePositives , }
 
-struct Row<T> {
-    item: T,
-    estimate: u64,
-    upper_bound: u64,
-    lower_bound: u64,
-}
+
+struct Row < T > {
+item : T , estimate : u64 , upper_bound : u64 , lower_bound : u64 , }
+
 
 // R15: `rows.sort_by_key(|row| std::cmp::Reverse(row.estimate))` -- std sort leaf: a permutation, descending by estimate
 #[verifier::external_body]
@@ -303,14 +287,9 @@ fn vx_sort_rows_desc<T>(rows: &mut Vec<Row<T>>)
 { rows.sort_by_key(|row| std::cmp::Reverse(row.estimate)); }
 
 #[verifier::reject_recursive_types(T)]
-struct FrequentItemsSketch<T> {
-    lg_max_map_size: u8,
-    cur_map_cap: usize,
-    offset: u64,
-    stream_weight: u64,
-    sample_size: usize,
-    hash_map: ReversePurgeItemHashMap<T>,
-}
+struct FrequentItemsSketch < T > {
+lg_max_map_size : u8 , cur_map_cap : usize , offset : u64 , stream_weight : u64 , sample_size : usize , hash_map : ReversePurgeItemHashMap < T > , }
+
 
 impl<T: Eq + Hash> FrequentItemsSketch<T> {
     // invariant, with `slack` extra active items allowed (1 between the insertion and maybe_resize_or_purge)
@@ -333,203 +312,195 @@ impl<T: Eq + Hash> FrequentItemsSketch<T> {
         &&& forall|x: T| self.lb_spec(x) <= #[trigger] truth(h, x) <= self.ub_spec(x)
     }
 
-    fn with_lg_map_sizes(lg_max_map_size: u8, lg_cur_map_size: u8) -> (r: Self)
-      requires eq_law::<T>(), lg_max_map_size <= 40,
-        // the function's own assert
-        lg_cur_map_size <= lg_max_map_size || lg_cur_map_size <= LG_MIN_MAP_SIZE,
-      ensures r.wf(), r.lg_max_map_size == (if lg_max_map_size >= LG_MIN_MAP_SIZE { lg_max_map_size } else { LG_MIN_MAP_SIZE }),
-        /*@C07.empty_model*/ r.models(Seq::<(T, u64)>::empty()),
-        /*@C18.fi_capacity*/ r.hash_map.num_active <= cap_of(r.lg_max_map_size),
-    {
-        let lg_max = lg_max_map_size.max(LG_MIN_MAP_SIZE);
-        let lg_cur = lg_cur_map_size.max(LG_MIN_MAP_SIZE);
-        assert!(lg_cur <= lg_max);
-        proof { lemma_shl(lg_cur); lemma_shl(lg_max); lemma_len_bound(lg_cur); lemma_len_bound(lg_max); }
-        let map = ReversePurgeItemHashMap::new(1usize << lg_cur);
-        let cur_map_cap = map.capacity();
-        let max_map_cap = (1usize << lg_max) * LOAD_FACTOR_NUMERATOR / LOAD_FACTOR_DENOMINATOR;
-        let sample_size = SAMPLE_SIZE.min(max_map_cap);
-        proof { lemma_empty_map(map, lg_cur); }
-        Self {
-            lg_max_map_size: lg_max,
-            cur_map_cap,
-            offset: 0,
-            stream_weight: 0,
-            sample_size,
-            hash_map: map,
-        }
-    }
+    fn with_lg_map_sizes ( lg_max_map_size : u8 , lg_cur_map_size : u8 ) -> ( r : Self ) requires eq_law :: < T > ( ) , lg_max_map_size <= 40 , lg_cur_map_size <= lg_max_map_size || lg_cur_map_size <= LG_MIN_MAP_SIZE , ensures r . wf ( ) , r . lg_max_map_size == ( if lg_max_map_size >= LG_MIN_MAP_SIZE {
+lg_max_map_size }
+else {
+LG_MIN_MAP_SIZE }
+) ,
+/*@C07.empty_model*/ r . models ( Seq :: < ( T , u64 ) > :: empty ( ) ) ,
+/*@C18.fi_capacity*/ r . hash_map . num_active <= cap_of ( r . lg_max_map_size ) , {
+let lg_max = lg_max_map_size . max ( LG_MIN_MAP_SIZE ) ;
+let lg_cur = lg_cur_map_size . max ( LG_MIN_MAP_SIZE ) ;
+assert! ( lg_cur <= lg_max ) ;
+proof {
+lemma_shl ( lg_cur ) ;
+lemma_shl ( lg_max ) ;
+lemma_len_bound ( lg_cur ) ;
+lemma_len_bound ( lg_max ) ;
+}
+let map = ReversePurgeItemHashMap :: new ( 1usize << lg_cur ) ;
+let cur_map_cap = map . capacity ( ) ;
+let max_map_cap = ( 1usize << lg_max ) * LOAD_FACTOR_NUMERATOR / LOAD_FACTOR_DENOMINATOR ;
+let sample_size = SAMPLE_SIZE . min ( max_map_cap ) ;
+proof {
+lemma_empty_map ( map , lg_cur ) ;
+}
+Self {
+lg_max_map_size : lg_max , cur_map_cap , offset : 0 , stream_weight : 0 , sample_size , hash_map : map , }
+}
 
-    fn total_weight(&self) -> (r: u64)
-      ensures /*@C07.total_weight*/ forall|h: Seq<(T, u64)>| #[trigger] self.models(h) ==> r == total(h),
-    {
-        self.stream_weight
-    }
 
-    fn estimate(&self, item: &T) -> (r: u64)
-      requires self.wf(),
-      ensures /*@C07.estimate_in_bounds*/ self.lb_spec(*item) <= r <= self.ub_spec(*item),
-        r == (if self.hash_map.val(*item) > 0 { self.ub_spec(*item) } else { 0 }),
-    {
-        proof { lemma_val_le_sum(self.hash_map, *item); }
-        let value = self.hash_map.get(item);
-        if value > 0 { value + self.offset } else { 0 }
-    }
+    fn total_weight ( & self ) -> ( r : u64 ) ensures
+/*@C07.total_weight*/ forall | h : Seq < ( T , u64 ) > | # [ trigger ] self . models ( h ) ==> r == total ( h ) , {
+self . stream_weight }
 
-    fn lower_bound(&self, item: &T) -> (r: u64)
-      requires self.wf(),
-      ensures /*@C07.lb*/ forall|h: Seq<(T, u64)>| #[trigger] self.models(h) ==> r <= truth(h, *item),
-        r == self.lb_spec(*item),
-    {
-        self.hash_map.get(item)
-    }
 
-    fn upper_bound(&self, item: &T) -> (r: u64)
-      requires self.wf(),
-      ensures /*@C07.ub*/ forall|h: Seq<(T, u64)>| #[trigger] self.models(h) ==> truth(h, *item) <= r,
-        r == self.ub_spec(*item),
-    {
-        proof { lemma_val_le_sum(self.hash_map, *item); }
-        self.hash_map.get(item) + self.offset
-    }
+    fn estimate ( & self , item : & T ) -> ( r : u64 ) requires self . wf ( ) , ensures
+/*@C07.estimate_in_bounds*/ self . lb_spec ( * item ) <= r <= self . ub_spec ( * item ) , r == ( if self . hash_map . val ( * item ) > 0 {
+self . ub_spec ( * item ) }
+else {
+0 }
+) , {
+proof {
+lemma_val_le_sum ( self . hash_map , * item ) ;
+}
+let value = self . hash_map . get ( item ) ;
+if value > 0 {
+value + self . offset }
+else {
+0 }
+}
 
-    fn maximum_error(&self) -> (r: u64)
-      ensures /*@C07.width*/ forall|x: T| #[trigger] self.ub_spec(x) - self.lb_spec(x) == r,
-    {
-        self.offset
-    }
 
-    fn maximum_map_capacity(&self) -> (r: usize)
-      requires self.lg_max_map_size <= 40,
-      ensures r == cap_of(self.lg_max_map_size),
-    {
-        proof { lemma_shl(self.lg_max_map_size); }
-        (1usize << self.lg_max_map_size) * LOAD_FACTOR_NUMERATOR / LOAD_FACTOR_DENOMINATOR
-    }
+    fn lower_bound ( & self , item : & T ) -> ( r : u64 ) requires self . wf ( ) , ensures
+/*@C07.lb*/ forall | h : Seq < ( T , u64 ) > | # [ trigger ] self . models ( h ) ==> r <= truth ( h , * item ) , r == self . lb_spec ( * item ) , {
+self . hash_map . get ( item ) }
 
-    fn update_with_count(&mut self, item: T, count: u64)
-      requires old(self).wf(), old(self).stream_weight + count <= u64::MAX,
-      ensures final(self).wf(),
-        /*@C07.update*/ forall|h: Seq<(T, u64)>| #[trigger] old(self).models(h) ==> final(self).models(h.push((item, count))),
-        /*@C07.update_total*/ final(self).stream_weight == old(self).stream_weight + count,
-        /*@C18.fi_capacity*/ final(self).hash_map.num_active <= cap_of(final(self).lg_max_map_size),
-        final(self).lg_max_map_size == old(self).lg_max_map_size,
-    {
-        if count == 0 {
-            proof {
-                assert forall|h: Seq<(T, u64)>| #[trigger] old(self).models(h) implies self.models(h.push((item, count))) by {
-                    lemma_push(h, item, count);
-                }
-                lemma_cap_mono(self.hash_map.lg_length, self.lg_max_map_size);
-            }
-            return;
-        }
-        proof {
-            lemma_room(self.hash_map.lg_length);
-            lemma_val_le_sum(self.hash_map, item);
-        }
-        assert!(count > 0);
-        self.stream_weight += count;
-        self.hash_map.adjust_or_put_value(item, count);
-        proof {
-            lemma_put(old(self).hash_map, self.hash_map, item, count);
-            assert forall|h: Seq<(T, u64)>| #[trigger] old(self).models(h) implies self.models(h.push((item, count))) by {
-                lemma_push(h, item, count);
-                assert forall|x: T| self.lb_spec(x) <= #[trigger] truth(h.push((item, count)), x) <= self.ub_spec(x) by {
-                    assert(old(self).lb_spec(x) <= truth(h, x) <= old(self).ub_spec(x));
-                }
-            }
-        }
-        self.maybe_resize_or_purge();
-    }
 
-    fn merge(&mut self, other: &Self)
-      where T: Clone,
-      requires old(self).wf(), other.wf(), old(self).stream_weight + other.stream_weight <= u64::MAX,
-      ensures final(self).wf(),
-        /*@C07.merge*/ forall|h1: Seq<(T, u64)>, h2: Seq<(T, u64)>| #[trigger] old(self).models(h1) && #[trigger] other.models(h2) ==> final(self).models(h1 + h2),
-        /*@C07.merge_total*/ final(self).stream_weight == old(self).stream_weight + other.stream_weight,
-        /*@C18.fi_capacity*/ final(self).hash_map.num_active <= cap_of(final(self).lg_max_map_size),
-        final(self).lg_max_map_size == old(self).lg_max_map_size,
-    {
-        if other.stream_weight == 0 {
-            proof {
-                assert forall|h1: Seq<(T, u64)>, h2: Seq<(T, u64)>| #[trigger] old(self).models(h1) && #[trigger] other.models(h2) implies self.models(h1 + h2) by {
-                    lemma_concat(h1, h2);
-                    assert forall|x: T| #[trigger] truth(h2, x) == 0 by { lemma_truth_le_total(h2, x); }
-                }
-                lemma_cap_mono(self.hash_map.lg_length, self.lg_max_map_size);
-            }
-            return;
-        }
-        let merged_total = self.stream_weight + other.stream_weight;
-        let ghost mut g: Seq<(T, u64)> = Seq::empty();
-        let ghost mut seen: Set<T> = Set::empty();
-        let ghost oks = other.hash_map.keys@;
-        let ghost ovs = other.hash_map.values@;
-        let ghost ost = other.hash_map.states@;
-        proof { lemma_cap_mono(self.hash_map.lg_length, self.lg_max_map_size); }
-        let mut vx_it = other.hash_map.iter();
-        loop
-          invariant
-            self.wf(), other.wf(), vx_it.inv(), *vx_it.map == other.hash_map, self.lg_max_map_size == old(self).lg_max_map_size,
-            oks == other.hash_map.keys@, ovs == other.hash_map.values@, ost == other.hash_map.states@,
-            old(self).stream_weight + other.stream_weight <= u64::MAX, merged_total == old(self).stream_weight + other.stream_weight,
-            self.stream_weight == old(self).stream_weight + total(g),
-            iter_link(oks, ovs, ost, vx_it.yielded(), seen),
-            total(g) == ssum(seen, valf(oks, ovs, ost)),
-            total(g) <= other.hash_map.msum(),
-            forall|x: T| #[trigger] truth(g, x) == (if seen.contains(x) { other.hash_map.val(x) as nat } else { 0 }),
-            /*@C07.merge*/ forall|h1: Seq<(T, u64)>| #[trigger] old(self).models(h1) ==> self.models(h1 + g),
-            /*@C18.fi_capacity*/ self.hash_map.num_active <= cap_of(self.lg_max_map_size),
-          ensures
-            forall|k: T| fholds(oks, ost, k) ==> seen.contains(k),
-          decreases focc(ost).len() - vx_it.yielded().len()
-        {
-            let ghost it0 = vx_it;
-            match vx_it.next() {
-                Some((item, count)) => {
-                    let ghost g0 = g;
-                    let ghost seen0 = seen;
-                    let ghost pre = *self;
-                    proof {
-                        lemma_iter_step(oks, ovs, ost, it0.yielded(), seen0, vx_it.index as int, *item);
-                        seen = seen0.insert(*item);
-                        g = g0.push((*item, count));
-                        lemma_push(g0, *item, count);
-                    }
-                    self.update_with_count(vx_clone(item), count);
-                    proof {
-                        assert forall|h1: Seq<(T, u64)>| #[trigger] old(self).models(h1) implies self.models(h1 + g) by {
-                            assert(pre.models(h1 + g0));
-                            assert((h1 + g0).push((*item, count)) =~= h1 + g);
-                        }
-                    }
-                }
-                None => {
-                    proof { lemma_iter_done(oks, ovs, ost, it0.yielded(), seen); }
-                    break;
-                }
-            }
-        }
-        let ghost mid = *self;
-        self.offset += other.offset;
-        self.stream_weight = merged_total;
-        proof {
-            assert(self.hash_map == mid.hash_map);
-            assert forall|h1: Seq<(T, u64)>, h2: Seq<(T, u64)>| #[trigger] old(self).models(h1) && #[trigger] other.models(h2) implies self.models(h1 + h2) by {
-                lemma_concat(h1, g); lemma_concat(h1, h2);
-                assert forall|x: T| self.lb_spec(x) <= #[trigger] truth(h1 + h2, x) <= self.ub_spec(x) by {
-                    assert(truth(h1 + g, x) == truth(h1, x) + truth(g, x));
-                    assert(truth(g, x) == other.hash_map.val(x));
-                    assert(mid.models(h1 + g));
-                    assert(mid.lb_spec(x) <= truth(h1 + g, x) <= mid.ub_spec(x));
-                    assert(truth(h1 + h2, x) == truth(h1, x) + truth(h2, x));
-                    assert(other.lb_spec(x) <= truth(h2, x) <= other.ub_spec(x));
-                }
-            }
-        }
-    }
+    fn upper_bound ( & self , item : & T ) -> ( r : u64 ) requires self . wf ( ) , ensures
+/*@C07.ub*/ forall | h : Seq < ( T , u64 ) > | # [ trigger ] self . models ( h ) ==> truth ( h , * item ) <= r , r == self . ub_spec ( * item ) , {
+proof {
+lemma_val_le_sum ( self . hash_map , * item ) ;
+}
+self . hash_map . get ( item ) + self . offset }
+
+
+    fn maximum_error ( & self ) -> ( r : u64 ) ensures
+/*@C07.width*/ forall | x : T | # [ trigger ] self . ub_spec ( x ) - self . lb_spec ( x ) == r , {
+self . offset }
+
+
+    fn maximum_map_capacity ( & self ) -> ( r : usize ) requires self . lg_max_map_size <= 40 , ensures r == cap_of ( self . lg_max_map_size ) , {
+proof {
+lemma_shl ( self . lg_max_map_size ) ;
+}
+( 1usize << self . lg_max_map_size ) * LOAD_FACTOR_NUMERATOR / LOAD_FACTOR_DENOMINATOR }
+
+
+    fn update_with_count ( & mut self , item : T , count : u64 ) requires old ( self ) . wf ( ) , old ( self ) . stream_weight + count <= u64 :: MAX , ensures final ( self ) . wf ( ) ,
+/*@C07.update*/ forall | h : Seq < ( T , u64 ) > | # [ trigger ] old ( self ) . models ( h ) ==> final ( self ) . models ( h . push ( ( item , count ) ) ) ,
+/*@C07.update_total*/ final ( self ) . stream_weight == old ( self ) . stream_weight + count ,
+/*@C18.fi_capacity*/ final ( self ) . hash_map . num_active <= cap_of ( final ( self ) . lg_max_map_size ) , final ( self ) . lg_max_map_size == old ( self ) . lg_max_map_size , {
+if count == 0 {
+proof {
+assert forall | h : Seq < ( T , u64 ) > | # [ trigger ] old ( self ) . models ( h ) implies self . models ( h . push ( ( item , count ) ) ) by {
+lemma_push ( h , item , count ) ;
+}
+lemma_cap_mono ( self . hash_map . lg_length , self . lg_max_map_size ) ;
+}
+return ;
+}
+proof {
+lemma_room ( self . hash_map . lg_length ) ;
+lemma_val_le_sum ( self . hash_map , item ) ;
+}
+assert! ( count > 0 ) ;
+self . stream_weight += count ;
+self . hash_map . adjust_or_put_value ( item , count ) ;
+proof {
+lemma_put ( old ( self ) . hash_map , self . hash_map , item , count ) ;
+assert forall | h : Seq < ( T , u64 ) > | # [ trigger ] old ( self ) . models ( h ) implies self . models ( h . push ( ( item , count ) ) ) by {
+lemma_push ( h , item , count ) ;
+assert forall | x : T | self . lb_spec ( x ) <= # [ trigger ] truth ( h . push ( ( item , count ) ) , x ) <= self . ub_spec ( x ) by {
+assert ( old ( self ) . lb_spec ( x ) <= truth ( h , x ) <= old ( self ) . ub_spec ( x ) ) ;
+}
+}
+}
+self . maybe_resize_or_purge ( ) ;
+}
+
+
+    fn merge ( & mut self , other : & Self ) where T : Clone , requires old ( self ) . wf ( ) , other . wf ( ) , old ( self ) . stream_weight + other . stream_weight <= u64 :: MAX , ensures final ( self ) . wf ( ) ,
+/*@C07.merge*/ forall | h1 : Seq < ( T , u64 ) > , h2 : Seq < ( T , u64 ) > | # [ trigger ] old ( self ) . models ( h1 ) && # [ trigger ] other . models ( h2 ) ==> final ( self ) . models ( h1 + h2 ) ,
+/*@C07.merge_total*/ final ( self ) . stream_weight == old ( self ) . stream_weight + other . stream_weight ,
+/*@C18.fi_capacity*/ final ( self ) . hash_map . num_active <= cap_of ( final ( self ) . lg_max_map_size ) , final ( self ) . lg_max_map_size == old ( self ) . lg_max_map_size , {
+if other . stream_weight == 0 {
+proof {
+assert forall | h1 : Seq < ( T , u64 ) > , h2 : Seq < ( T , u64 ) > | # [ trigger ] old ( self ) . models ( h1 ) && # [ trigger ] other . models ( h2 ) implies self . models ( h1 + h2 ) by {
+lemma_concat ( h1 , h2 ) ;
+assert forall | x : T | # [ trigger ] truth ( h2 , x ) == 0 by {
+lemma_truth_le_total ( h2 , x ) ;
+}
+}
+lemma_cap_mono ( self . hash_map . lg_length , self . lg_max_map_size ) ;
+}
+return ;
+}
+let merged_total = self . stream_weight + other . stream_weight ;
+let ghost mut g : Seq < ( T , u64 ) > = Seq :: empty ( ) ;
+let ghost mut seen : Set < T > = Set :: empty ( ) ;
+let ghost oks = other . hash_map . keys @ ;
+let ghost ovs = other . hash_map . values @ ;
+let ghost ost = other . hash_map . states @ ;
+proof {
+lemma_cap_mono ( self . hash_map . lg_length , self . lg_max_map_size ) ;
+}
+let mut vx_it1 = other . hash_map . iter ( ) ;
+loop invariant self . wf ( ) , other . wf ( ) , vx_it1 . inv ( ) , * vx_it1 . map == other . hash_map , self . lg_max_map_size == old ( self ) . lg_max_map_size , oks == other . hash_map . keys @ , ovs == other . hash_map . values @ , ost == other . hash_map . states @ , old ( self ) . stream_weight + other . stream_weight <= u64 :: MAX , merged_total == old ( self ) . stream_weight + other . stream_weight , self . stream_weight == old ( self ) . stream_weight + total ( g ) , iter_link ( oks , ovs , ost , vx_it1 . yielded ( ) , seen ) , total ( g ) == ssum ( seen , valf ( oks , ovs , ost ) ) , total ( g ) <= other . hash_map . msum ( ) , forall | x : T | # [ trigger ] truth ( g , x ) == ( if seen . contains ( x ) {
+other . hash_map . val ( x ) as nat }
+else {
+0 }
+) ,
+/*@C07.merge*/ forall | h1 : Seq < ( T , u64 ) > | # [ trigger ] old ( self ) . models ( h1 ) ==> self . models ( h1 + g ) ,
+/*@C18.fi_capacity*/ self . hash_map . num_active <= cap_of ( self . lg_max_map_size ) , ensures forall | k : T | fholds ( oks , ost , k ) ==> seen . contains ( k ) , decreases focc ( ost ) . len ( ) - vx_it1 . yielded ( ) . len ( ) {
+let ghost it0 = vx_it1 ;
+match vx_it1 . next ( ) {
+Some ( ( item , count ) ) => {
+let ghost g0 = g ;
+let ghost seen0 = seen ;
+let ghost pre = * self ;
+proof {
+lemma_iter_step ( oks , ovs , ost , it0 . yielded ( ) , seen0 , vx_it1 . index as int , * item ) ;
+seen = seen0 . insert ( * item ) ;
+g = g0 . push ( ( * item , count ) ) ;
+lemma_push ( g0 , * item , count ) ;
+}
+self . update_with_count ( vx_clone ( item ) , count ) ;
+proof {
+assert forall | h1 : Seq < ( T , u64 ) > | # [ trigger ] old ( self ) . models ( h1 ) implies self . models ( h1 + g ) by {
+assert ( pre . models ( h1 + g0 ) ) ;
+assert ( ( h1 + g0 ) . push ( ( * item , count ) ) =~= h1 + g ) ;
+}
+}
+}
+None => {
+proof {
+lemma_iter_done ( oks , ovs , ost , it0 . yielded ( ) , seen ) ;
+}
+break ;
+}
+}
+}
+let ghost mid = * self ;
+self . offset += other . offset ;
+self . stream_weight = merged_total ;
+proof {
+assert ( self . hash_map == mid . hash_map ) ;
+assert forall | h1 : Seq < ( T , u64 ) > , h2 : Seq < ( T , u64 ) > | # [ trigger ] old ( self ) . models ( h1 ) && # [ trigger ] other . models ( h2 ) implies self . models ( h1 + h2 ) by {
+lemma_concat ( h1 , g ) ;
+lemma_concat ( h1 , h2 ) ;
+assert forall | x : T | self . lb_spec ( x ) <= # [ trigger ] truth ( h1 + h2 , x ) <= self . ub_spec ( x ) by {
+assert ( truth ( h1 + g , x ) == truth ( h1 , x ) + truth ( g , x ) ) ;
+assert ( truth ( g , x ) == other . hash_map . val ( x ) ) ;
+assert ( mid . models ( h1 + g ) ) ;
+assert ( mid . lb_spec ( x ) <= truth ( h1 + g , x ) <= mid . ub_spec ( x ) ) ;
+assert ( truth ( h1 + h2 , x ) == truth ( h1 , x ) + truth ( h2 , x ) ) ;
+assert ( other . lb_spec ( x ) <= truth ( h2 , x ) <= other . ub_spec ( x ) ) ;
+}
+}
+}
+}
+
 
     spec fn thr(&self, threshold: u64) -> u64 { if threshold >= self.offset { threshold } else { self.offset } }
     // the selection criterion of a row
@@ -541,139 +512,135 @@ impl<T: Eq + Hash> FrequentItemsSketch<T> {
         &&& row.lower_bound == self.lb_spec(row.item) && row.upper_bound == self.ub_spec(row.item) && row.estimate == row.upper_bound
     }
 
-    fn frequent_items_with_threshold(&self, error_type: ErrorType, threshold: u64,) -> (rows: Vec<Row<T>>)
-      where T: Clone,
-      requires self.wf(),
-      ensures
-        /*@C07.rows_bounds*/ forall|i: int| 0 <= i < rows@.len() ==> #[trigger] self.row_ok(error_type, self.thr(threshold), rows@[i]),
-        /*@C07.rows_complete*/ forall|x: T| #[trigger] self.selected(error_type, self.thr(threshold), x) ==> exists|i: int| 0 <= i < rows@.len() && #[trigger] rows@[i].item == x,
-        /*@C07.nfp*/ error_type is NoFalsePositives ==> forall|h: Seq<(T, u64)>, i: int| #[trigger] self.models(h) && 0 <= i < rows@.len() ==> truth(h, #[trigger] rows@[i].item) > self.thr(threshold),
-        /*@C07.nfn*/ error_type is NoFalseNegatives ==> forall|h: Seq<(T, u64)>, x: T| #[trigger] self.models(h) && #[trigger] truth(h, x) > self.thr(threshold) ==> exists|i: int| 0 <= i < rows@.len() && #[trigger] rows@[i].item == x,
-        forall|i: int, j: int| 0 <= i <= j < rows@.len() ==> rows@[i].estimate >= rows@[j].estimate,
-    {
-        let threshold = threshold.max(self.offset);
-        let mut rows = vec![];
-        let ghost mut seen: Set<T> = Set::empty();
-        let ghost ks = self.hash_map.keys@;
-        let ghost vs = self.hash_map.values@;
-        let ghost st = self.hash_map.states@;
-        let mut vx_it = self.hash_map.iter();
-        loop
-          invariant
-            self.wf(), vx_it.inv(), *vx_it.map == self.hash_map,
-            ks == self.hash_map.keys@, vs == self.hash_map.values@, st == self.hash_map.states@,
-            iter_link(ks, vs, st, vx_it.yielded(), seen),
-            /*@C07.rows_bounds*/ forall|i: int| 0 <= i < rows@.len() ==> #[trigger] self.row_ok(error_type, threshold, rows@[i]),
-            /*@C07.rows_complete*/ forall|x: T| seen.contains(x) && #[trigger] self.selected(error_type, threshold, x) ==> exists|i: int| 0 <= i < rows@.len() && #[trigger] rows@[i].item == x,
-          ensures
-            forall|k: T| fholds(ks, st, k) ==> seen.contains(k),
-          decreases focc(st).len() - vx_it.yielded().len()
-        {
-            let ghost it0 = vx_it;
-            match vx_it.next() {
-                Some((item, count)) => {
-                    let ghost rows0 = rows@;
-                    proof {
-                        lemma_iter_step(ks, vs, st, it0.yielded(), seen, vx_it.index as int, *item);
-                        lemma_val_le_sum(self.hash_map, *item);
-                    }
-                    let lower = count;
-                    let upper = count + self.offset;
-                    let include = match error_type {
-                        ErrorType::NoFalseNegatives => upper > threshold,
-                        ErrorType::NoFalsePositives => lower > threshold,
-                    };
-                    if include {
-                        rows.push(Row {
-                            item: vx_clone(item),
-                            estimate: upper,
-                            upper_bound: upper,
-                            lower_bound: lower,
-                        });
-                    }
-                    proof {
-                        let ghost seen0 = seen;
-                        seen = seen0.insert(*item);
-                        assert forall|i: int| 0 <= i < rows@.len() implies #[trigger] self.row_ok(error_type, threshold, rows@[i]) by {
-                            if i < rows0.len() { assert(rows@[i] == rows0[i]); }
-                        }
-                        assert forall|x: T| seen.contains(x) && #[trigger] self.selected(error_type, threshold, x) implies exists|i: int| 0 <= i < rows@.len() && #[trigger] rows@[i].item == x by {
-                            if x == *item {
-                                assert(rows@[rows@.len() - 1].item == x);
-                            } else {
-                                let i = choose|i: int| 0 <= i < rows0.len() && #[trigger] rows0[i].item == x;
-                                assert(rows@[i].item == x);
-                            }
-                        }
-                    }
-                }
-                None => {
-                    proof { lemma_iter_done(ks, vs, st, it0.yielded(), seen); }
-                    break;
-                }
-            }
-        }
-        let ghost rows1 = rows@;
-        vx_sort_rows_desc(&mut rows);
-        proof {
-            lemma_perm_rows(rows1, rows@);
-            assert forall|i: int| 0 <= i < rows@.len() implies #[trigger] self.row_ok(error_type, threshold, rows@[i]) by {
-                assert(rows1.contains(rows@[i]));
-                let j = choose|j: int| 0 <= j < rows1.len() && rows1[j] == rows@[i];
-                assert(self.row_ok(error_type, threshold, rows1[j]));
-            }
-            assert forall|x: T| #[trigger] self.selected(error_type, threshold, x) implies exists|i: int| 0 <= i < rows@.len() && #[trigger] rows@[i].item == x by {
-                assert(fholds(ks, st, x));
-                let j = choose|j: int| 0 <= j < rows1.len() && #[trigger] rows1[j].item == x;
-                assert(rows@.contains(rows1[j]));
-                let i = choose|i: int| 0 <= i < rows@.len() && rows@[i] == rows1[j];
-                assert(rows@[i].item == x);
-            }
-            if error_type is NoFalseNegatives {
-                assert forall|h: Seq<(T, u64)>, x: T| #[trigger] self.models(h) && #[trigger] truth(h, x) > threshold implies exists|i: int| 0 <= i < rows@.len() && #[trigger] rows@[i].item == x by {
-                    assert(self.lb_spec(x) <= truth(h, x) <= self.ub_spec(x));
-                    assert(self.selected(error_type, threshold, x));
-                }
-            }
-            if error_type is NoFalsePositives {
-                assert forall|h: Seq<(T, u64)>, i: int| #[trigger] self.models(h) && 0 <= i < rows@.len() implies truth(h, #[trigger] rows@[i].item) > threshold by {
-                    assert(self.row_ok(error_type, threshold, rows@[i]));
-                    assert(self.lb_spec(rows@[i].item) <= truth(h, rows@[i].item));
-                }
-            }
-        }
-        rows
-    }
+    fn frequent_items_with_threshold ( & self , error_type : ErrorType , threshold : u64 , ) -> ( rows : Vec < Row < T >> ) where T : Clone , requires self . wf ( ) , ensures
+/*@C07.rows_bounds*/ forall | i : int | 0 <= i < rows @ . len ( ) ==> # [ trigger ] self . row_ok ( error_type , self . thr ( threshold ) , rows @ [ i ] ) ,
+/*@C07.rows_complete*/ forall | x : T | # [ trigger ] self . selected ( error_type , self . thr ( threshold ) , x ) ==> exists | i : int | 0 <= i < rows @ . len ( ) && # [ trigger ] rows @ [ i ] . item == x ,
+/*@C07.nfp*/ error_type is NoFalsePositives ==> forall | h : Seq < ( T , u64 ) > , i : int | # [ trigger ] self . models ( h ) && 0 <= i < rows @ . len ( ) ==> truth ( h , # [ trigger ] rows @ [ i ] . item ) > self . thr ( threshold ) ,
+/*@C07.nfn*/ error_type is NoFalseNegatives ==> forall | h : Seq < ( T , u64 ) > , x : T | # [ trigger ] self . models ( h ) && # [ trigger ] truth ( h , x ) > self . thr ( threshold ) ==> exists | i : int | 0 <= i < rows @ . len ( ) && # [ trigger ] rows @ [ i ] . item == x , forall | i : int , j : int | 0 <= i <= j < rows @ . len ( ) ==> rows @ [ i ] . estimate >= rows @ [ j ] . estimate , {
+let threshold = threshold . max ( self . offset ) ;
+let mut rows = vec! [ ] ;
+let ghost mut seen : Set < T > = Set :: empty ( ) ;
+let ghost ks = self . hash_map . keys @ ;
+let ghost vs = self . hash_map . values @ ;
+let ghost st = self . hash_map . states @ ;
+let mut vx_it1 = self . hash_map . iter ( ) ;
+loop invariant self . wf ( ) , vx_it1 . inv ( ) , * vx_it1 . map == self . hash_map , ks == self . hash_map . keys @ , vs == self . hash_map . values @ , st == self . hash_map . states @ , iter_link ( ks , vs , st , vx_it1 . yielded ( ) , seen ) ,
+/*@C07.rows_bounds*/ forall | i : int | 0 <= i < rows @ . len ( ) ==> # [ trigger ] self . row_ok ( error_type , threshold , rows @ [ i ] ) ,
+/*@C07.rows_complete*/ forall | x : T | seen . contains ( x ) && # [ trigger ] self . selected ( error_type , threshold , x ) ==> exists | i : int | 0 <= i < rows @ . len ( ) && # [ trigger ] rows @ [ i ] . item == x , ensures forall | k : T | fholds ( ks , st , k ) ==> seen . contains ( k ) , decreases focc ( st ) . len ( ) - vx_it1 . yielded ( ) . len ( ) {
+let ghost it0 = vx_it1 ;
+match vx_it1 . next ( ) {
+Some ( ( item , count ) ) => {
+let ghost rows0 = rows @ ;
+proof {
+lemma_iter_step ( ks , vs , st , it0 . yielded ( ) , seen , vx_it1 . index as int , * item ) ;
+lemma_val_le_sum ( self . hash_map , * item ) ;
+}
+let lower = count ;
+let upper = count + self . offset ;
+let include = match error_type {
+ErrorType :: NoFalseNegatives => upper > threshold , ErrorType :: NoFalsePositives => lower > threshold , }
+;
+if include {
+rows . push ( Row {
+item : vx_clone ( item ) , estimate : upper , upper_bound : upper , lower_bound : lower , }
+) ;
+}
+proof {
+let ghost seen0 = seen ;
+seen = seen0 . insert ( * item ) ;
+assert forall | i : int | 0 <= i < rows @ . len ( ) implies # [ trigger ] self . row_ok ( error_type , threshold , rows @ [ i ] ) by {
+if i < rows0 . len ( ) {
+assert ( rows @ [ i ] == rows0 [ i ] ) ;
+}
+}
+assert forall | x : T | seen . contains ( x ) && # [ trigger ] self . selected ( error_type , threshold , x ) implies exists | i : int | 0 <= i < rows @ . len ( ) && # [ trigger ] rows @ [ i ] . item == x by {
+if x == * item {
+assert ( rows @ [ rows @ . len ( ) - 1 ] . item == x ) ;
+}
+else {
+let i = choose | i : int | 0 <= i < rows0 . len ( ) && # [ trigger ] rows0 [ i ] . item == x ;
+assert ( rows @ [ i ] . item == x ) ;
+}
+}
+}
+}
+None => {
+proof {
+lemma_iter_done ( ks , vs , st , it0 . yielded ( ) , seen ) ;
+}
+break ;
+}
+}
+}
+let ghost rows1 = rows @ ;
+vx_sort_rows_desc ( & mut rows ) ;
+proof {
+lemma_perm_rows ( rows1 , rows @ ) ;
+assert forall | i : int | 0 <= i < rows @ . len ( ) implies # [ trigger ] self . row_ok ( error_type , threshold , rows @ [ i ] ) by {
+assert ( rows1 . contains ( rows @ [ i ] ) ) ;
+let j = choose | j : int | 0 <= j < rows1 . len ( ) && rows1 [ j ] == rows @ [ i ] ;
+assert ( self . row_ok ( error_type , threshold , rows1 [ j ] ) ) ;
+}
+assert forall | x : T | # [ trigger ] self . selected ( error_type , threshold , x ) implies exists | i : int | 0 <= i < rows @ . len ( ) && # [ trigger ] rows @ [ i ] . item == x by {
+assert ( fholds ( ks , st , x ) ) ;
+let j = choose | j : int | 0 <= j < rows1 . len ( ) && # [ trigger ] rows1 [ j ] . item == x ;
+assert ( rows @ . contains ( rows1 [ j ] ) ) ;
+let i = choose | i : int | 0 <= i < rows @ . len ( ) && rows @ [ i ] == rows1 [ j ] ;
+assert ( rows @ [ i ] . item == x ) ;
+}
+if error_type is NoFalseNegatives {
+assert forall | h : Seq < ( T , u64 ) > , x : T | # [ trigger ] self . models ( h ) && # [ trigger ] truth ( h , x ) > threshold implies exists | i : int | 0 <= i < rows @ . len ( ) && # [ trigger ] rows @ [ i ] . item == x by {
+assert ( self . lb_spec ( x ) <= truth ( h , x ) <= self . ub_spec ( x ) ) ;
+assert ( self . selected ( error_type , threshold , x ) ) ;
+}
+}
+if error_type is NoFalsePositives {
+assert forall | h : Seq < ( T , u64 ) > , i : int | # [ trigger ] self . models ( h ) && 0 <= i < rows @ . len ( ) implies truth ( h , # [ trigger ] rows @ [ i ] . item ) > threshold by {
+assert ( self . row_ok ( error_type , threshold , rows @ [ i ] ) ) ;
+assert ( self . lb_spec ( rows @ [ i ] . item ) <= truth ( h , rows @ [ i ] . item ) ) ;
+}
+}
+}
+rows }
 
-    fn maybe_resize_or_purge(&mut self)
-      requires old(self).wf_but(1),
-      ensures final(self).wf(), final(self).stream_weight == old(self).stream_weight, final(self).lg_max_map_size == old(self).lg_max_map_size,
-        /*@C18.fi_capacity*/ final(self).hash_map.num_active <= cap_of(final(self).lg_max_map_size),
-        /*@C07.purge_keeps_bracket*/ forall|h: Seq<(T, u64)>| #[trigger] old(self).models(h) ==> final(self).models(h),
-    {
-        if self.hash_map.num_active() > self.cur_map_cap {
-            if self.hash_map.lg_length() < self.lg_max_map_size {
-                proof { lemma_len_bound(self.hash_map.lg_length); }
-                self.hash_map.resize(self.hash_map.len() * 2);
-                self.cur_map_cap = self.hash_map.capacity();
-                proof {
-                    lemma_resize_room(old(self).hash_map.lg_length);
-                    lemma_cap_mono(self.hash_map.lg_length, self.lg_max_map_size);
-                    lemma_same_sum(old(self).hash_map, self.hash_map);
-                }
-            } else {
-                let delta = self.hash_map.purge(self.sample_size);
-                proof { lemma_purge_sum(old(self).hash_map, self.hash_map, delta); }
-                self.offset += delta;
-                proof { lemma_cap_mono(self.hash_map.lg_length, self.lg_max_map_size); }
-                if self.hash_map.num_active() > self.maximum_map_capacity() {
-                    panic!();
-                }
-            }
-        } else {
-            proof { lemma_cap_mono(self.hash_map.lg_length, self.lg_max_map_size); }
-        }
-    }
+
+    fn maybe_resize_or_purge ( & mut self ) requires old ( self ) . wf_but ( 1 ) , ensures final ( self ) . wf ( ) , final ( self ) . stream_weight == old ( self ) . stream_weight , final ( self ) . lg_max_map_size == old ( self ) . lg_max_map_size ,
+/*@C18.fi_capacity*/ final ( self ) . hash_map . num_active <= cap_of ( final ( self ) . lg_max_map_size ) ,
+/*@C07.purge_keeps_bracket*/ forall | h : Seq < ( T , u64 ) > | # [ trigger ] old ( self ) . models ( h ) ==> final ( self ) . models ( h ) , {
+if self . hash_map . num_active ( ) > self . cur_map_cap {
+if self . hash_map . lg_length ( ) < self . lg_max_map_size {
+proof {
+lemma_len_bound ( self . hash_map . lg_length ) ;
+}
+self . hash_map . resize ( self . hash_map . len ( ) * 2 ) ;
+self . cur_map_cap = self . hash_map . capacity ( ) ;
+proof {
+lemma_resize_room ( old ( self ) . hash_map . lg_length ) ;
+lemma_cap_mono ( self . hash_map . lg_length , self . lg_max_map_size ) ;
+lemma_same_sum ( old ( self ) . hash_map , self . hash_map ) ;
+}
+}
+else {
+let delta = self . hash_map . purge ( self . sample_size ) ;
+proof {
+lemma_purge_sum ( old ( self ) . hash_map , self . hash_map , delta ) ;
+}
+self . offset += delta ;
+proof {
+lemma_cap_mono ( self . hash_map . lg_length , self . lg_max_map_size ) ;
+}
+if self . hash_map . num_active ( ) > self . maximum_map_capacity ( ) {
+panic! ( ) ;
+}
+}
+}
+else {
+proof {
+lemma_cap_mono ( self . hash_map . lg_length , self . lg_max_map_size ) ;
+}
+}
+}
+
 }
 
 // ================= lemmas of this unit =================
